@@ -794,6 +794,7 @@ func errRoot(xr, litExpr string) bool {
 type NOREACH struct {
 	ID      string
 	Fn      string
+	From    string // alternatively: start right after every instruction matching this pattern
 	FromLit string
 	Sink    string
 	Min     int
@@ -807,11 +808,34 @@ func (r NOREACH) Check(w *World) []Result {
 	if fn == nil {
 		return anchorMissing(r.ID, "NOREACH", r.Fn)
 	}
-	pat := MustLitPat(r.FromLit)
 	sinkRe := regexp.MustCompile(r.Sink)
-	construct := "NOREACH:" + r.Fn + ":" + r.FromLit + "↛" + r.Sink
+	construct := "NOREACH:" + r.Fn + ":" + r.From + r.FromLit + "↛" + r.Sink
 	n := 0
 	var out []Result
+	if r.From != "" {
+		for _, st := range w.Sites(fn, regexp.MustCompile(r.From), true) {
+			n++
+			f := st.Parent()
+			sinks := w.Sites(f, sinkRe, false)
+			b := st.Block()
+			// rest of the block, then everything reachable from the successors
+			reach := Reach(b.Succs, nil)
+			for _, s := range sinks {
+				if s.Block() == b && instrIndex(s) > instrIndex(st) || reach[s.Block()] {
+					out = append(out, one(r.ID, "NOREACH", construct, Violated, n, w.InstrPos(st),
+						fmt.Sprintf("in %s, after `%s` the effect `%s` (@%s) is still reachable", FnName(f), clip(w.RenderInstr(st), 100), clip(w.RenderInstr(s), 100), w.InstrPos(s))))
+				}
+			}
+		}
+		if n == 0 {
+			return []Result{one(r.ID, "NOREACH", construct, Violated, 0, w.Pos(fn.Pos()), "vacuous: start instruction not found")}
+		}
+		if len(out) == 0 {
+			out = append(out, one(r.ID, "NOREACH", construct, Discharged, n, w.Pos(fn.Pos()), fmt.Sprintf("%d start site(s); effect unreachable after each", n)))
+		}
+		return out
+	}
+	pat := MustLitPat(r.FromLit)
 	for _, f := range WithClosures(fn) {
 		sinks := w.Sites(f, sinkRe, false)
 		// closures created in f that contain the sink count as sink sites at their creation point
@@ -855,4 +879,157 @@ func (r NOREACH) Check(w *World) []Result {
 		out = append(out, one(r.ID, "NOREACH", construct, Discharged, n, w.Pos(fn.Pos()), fmt.Sprintf("%d branch(es); effect unreachable after each", n)))
 	}
 	return out
+}
+
+// ---------------------------------------------------------------------------
+// TABLE — truth table of a small loop-free function
+
+// TABLE: enumerate every entry→return path of the loop-free function Fn; the set of literals on the path plus the
+// returned value (rendered) must equal one of Rows, and every row must be realised by some path.
+// A row is written {"+lit", "-lit", …, "=> returned"}; literal order is irrelevant.
+type TABLE struct {
+	ID   string
+	Fn   string
+	Rows [][]string
+	Note string
+}
+
+func (r TABLE) RuleID() string { return r.ID }
+
+type cfgPath struct {
+	lits []string
+	ret  string
+	pos  string
+}
+
+// Paths enumerates acyclic paths of fn (nil, false when the function has a loop or too many paths).
+func (w *World) Paths(fn *ssa.Function, limit int) ([]cfgPath, bool) {
+	var out []cfgPath
+	ok := true
+	var walk func(b *ssa.BasicBlock, pred *ssa.BasicBlock, lits []string, on map[*ssa.BasicBlock]bool)
+	walk = func(b *ssa.BasicBlock, pred *ssa.BasicBlock, lits []string, on map[*ssa.BasicBlock]bool) {
+		if !ok {
+			return
+		}
+		if on[b] {
+			ok = false
+			return
+		}
+		if len(out) > limit {
+			ok = false
+			return
+		}
+		on[b] = true
+		defer delete(on, b)
+		if len(b.Instrs) == 0 {
+			return
+		}
+		switch last := b.Instrs[len(b.Instrs)-1].(type) {
+		case *ssa.Return:
+			var rs []string
+			for _, v := range last.Results {
+				v = resolveSpilled(last, v)
+				if phi, isPhi := v.(*ssa.Phi); isPhi && phi.Block() == b && pred != nil {
+					for i, p := range b.Preds {
+						if p == pred {
+							v = phi.Edges[i]
+						}
+					}
+				}
+				rs = append(rs, w.RenderD(v, 6))
+			}
+			out = append(out, cfgPath{lits: append([]string{}, lits...), ret: strings.Join(rs, ", "), pos: w.InstrPos(last)})
+		case *ssa.If:
+			t, f, isIf := w.BlockLits(b)
+			if !isIf {
+				walk(b.Succs[0], b, lits, on)
+				return
+			}
+			walk(b.Succs[0], b, append(lits, t.String()), on)
+			walk(b.Succs[1], b, append(lits[:len(lits):len(lits)], f.String()), on)
+		case *ssa.Jump:
+			walk(b.Succs[0], b, lits, on)
+		case *ssa.Panic:
+			out = append(out, cfgPath{lits: append([]string{}, lits...), ret: "panic", pos: w.InstrPos(last)})
+		}
+	}
+	if len(fn.Blocks) == 0 {
+		return nil, false
+	}
+	walk(fn.Blocks[0], nil, nil, map[*ssa.BasicBlock]bool{})
+	return out, ok
+}
+
+func normRow(lits []string, ret string) string {
+	l := append([]string{}, lits...)
+	sort.Strings(l)
+	// duplicates collapse
+	var u []string
+	for i, x := range l {
+		if i == 0 || x != l[i-1] {
+			u = append(u, x)
+		}
+	}
+	return strings.Join(u, " ∧ ") + " => " + ret
+}
+
+func (r TABLE) Check(w *World) []Result {
+	fn := w.Fn(r.Fn)
+	if fn == nil {
+		return anchorMissing(r.ID, "TT", r.Fn)
+	}
+	construct := "TT:" + r.Fn
+	paths, ok := w.Paths(fn, 512)
+	if !ok {
+		return []Result{one(r.ID, "TT", construct, Undecided, 0, w.Pos(fn.Pos()), r.Fn+" is no longer a small loop-free predicate: truth table cannot be enumerated")}
+	}
+	want := map[string]bool{}
+	for _, row := range r.Rows {
+		var lits []string
+		ret := ""
+		for _, x := range row {
+			if strings.HasPrefix(x, "=> ") {
+				ret = strings.TrimPrefix(x, "=> ")
+			} else {
+				lits = append(lits, x)
+			}
+		}
+		want[normRow(lits, ret)] = false
+	}
+	var out []Result
+	for _, p := range paths {
+		k := normRow(p.lits, p.ret)
+		if _, ok := want[k]; !ok {
+			out = append(out, one(r.ID, "TT", construct, Violated, len(paths), p.pos, fmt.Sprintf("%s has a path not in its specified truth table: %s", r.Fn, k)))
+			continue
+		}
+		want[k] = true
+	}
+	for k, seen := range want {
+		if !seen {
+			out = append(out, one(r.ID, "TT", construct, Violated, len(paths), w.Pos(fn.Pos()), fmt.Sprintf("%s no longer has the specified case: %s", r.Fn, k)))
+		}
+	}
+	sort.Slice(out, func(i, j int) bool { return out[i].Msg < out[j].Msg })
+	if len(out) == 0 {
+		out = append(out, one(r.ID, "TT", construct, Discharged, len(paths), w.Pos(fn.Pos()), fmt.Sprintf("%d paths, all equal to the specified table", len(paths))))
+	}
+	return out
+}
+
+// PrintPaths prints the path table of fn in the row syntax of TABLE (authoring aid).
+func (w *World) PrintPaths(fn *ssa.Function) {
+	paths, ok := w.Paths(fn, 512)
+	if !ok {
+		fmt.Println("  (loops or too many paths)")
+		return
+	}
+	for _, p := range paths {
+		var q []string
+		for _, l := range p.lits {
+			q = append(q, "`"+l+"`")
+		}
+		q = append(q, "`=> "+p.ret+"`")
+		fmt.Println("\t\t\t{" + strings.Join(q, ", ") + "},")
+	}
 }
